@@ -219,7 +219,82 @@ fn drop_ops(sc: &Scenario, from: usize, to: usize) -> Scenario {
     s
 }
 
+/// Apply a configuration simplification to the scenario's config and to the twin's second config.
+fn with_cfg(sc: &Scenario, f: &dyn Fn(&mut Config)) -> Scenario {
+    let mut s = sc.clone();
+    f(&mut s.config);
+    if let Twin::Chunking { config_b, .. } = &mut s.twin {
+        f(config_b);
+    }
+    s
+}
+
+fn simplify_chunking(sc: &Scenario) -> Vec<Scenario> {
+    let mut v = Vec::new();
+    let c = &sc.config;
+    if let Twin::Chunking { frames, setchunk_a, setchunk_b, steps, .. } = &sc.twin {
+        let set = |fr: u64, a: &Vec<usize>, b: &Vec<usize>, st: &Vec<(u64, f64)>| -> Scenario {
+            let mut s = sc.clone();
+            if let Twin::Chunking { frames, setchunk_a, setchunk_b, steps, .. } = &mut s.twin {
+                *frames = fr;
+                *setchunk_a = a.clone();
+                *setchunk_b = b.clone();
+                *steps = st.clone();
+            }
+            s
+        };
+        let min_frames = steps.last().map(|s| s.0 + 50).unwrap_or(50);
+        for f in [*frames / 2, *frames * 3 / 4, *frames - (*frames / 10).max(1)] {
+            if f >= min_frames && f < *frames {
+                v.push(set(f, setchunk_a, setchunk_b, steps));
+            }
+        }
+        if !steps.is_empty() {
+            let mut st = steps.clone();
+            st.pop();
+            v.push(set(*frames, setchunk_a, setchunk_b, &st));
+        }
+        if !setchunk_a.is_empty() {
+            let mut a = setchunk_a.clone();
+            a.pop();
+            v.push(set(*frames, &a, setchunk_b, steps));
+            v.push(set(*frames, &vec![], setchunk_b, steps));
+        }
+        if !setchunk_b.is_empty() {
+            let mut b = setchunk_b.clone();
+            b.pop();
+            v.push(set(*frames, setchunk_a, &b, steps));
+            v.push(set(*frames, setchunk_a, &vec![], steps));
+        }
+    }
+    if c.channels > 1 {
+        v.push(with_cfg(sc, &|c| c.channels = 1));
+    }
+    if c.f32 {
+        v.push(with_cfg(sc, &|c| c.f32 = false));
+    }
+    if c.kind.is_sinc() {
+        for l in [8usize, 16, 32, 64] {
+            if l < c.sinc_len {
+                v.push(with_cfg(sc, &move |c| c.sinc_len = l));
+            }
+        }
+        for o in [2usize, 4, 16] {
+            if o < c.oversampling {
+                v.push(with_cfg(sc, &move |c| c.oversampling = o));
+            }
+        }
+    }
+    v
+}
+
 fn simplify_candidates(sc: &Scenario) -> Vec<Scenario> {
+    if matches!(sc.twin, Twin::Chunking { .. }) {
+        return simplify_chunking(sc);
+    }
+    if matches!(sc.twin, Twin::Threads { .. }) {
+        return simplify_threads(sc);
+    }
     let mut v = Vec::new();
     let c = &sc.config;
     // fewer channels
@@ -328,6 +403,49 @@ fn simplify_candidates(sc: &Scenario) -> Vec<Scenario> {
             s.config.max_rel = r;
             v.push(s);
             break;
+        }
+    }
+    v
+}
+
+fn simplify_threads(sc: &Scenario) -> Vec<Scenario> {
+    let mut v = Vec::new();
+    if let Twin::Threads { threads, instances, schedule } = &sc.twin {
+        // drop one instance at a time (keep at least one)
+        if instances.len() > 1 {
+            for k in 0..instances.len() {
+                let mut s = sc.clone();
+                if let Twin::Threads { instances, .. } = &mut s.twin {
+                    instances.remove(k);
+                }
+                v.push(s);
+            }
+        }
+        // shorten histories
+        for k in 0..instances.len() {
+            if instances[k].ops.len() > 1 {
+                let mut s = sc.clone();
+                if let Twin::Threads { instances, .. } = &mut s.twin {
+                    let n = instances[k].ops.len();
+                    instances[k].ops.truncate(n / 2);
+                }
+                v.push(s);
+            }
+        }
+        if *threads > 2 {
+            let mut s = sc.clone();
+            if let Twin::Threads { threads, .. } = &mut s.twin {
+                *threads = 2;
+            }
+            v.push(s);
+        }
+        // no migrations
+        if schedule.iter().any(|x| x.2 >= 0) {
+            let mut s = sc.clone();
+            if let Twin::Threads { schedule, .. } = &mut s.twin {
+                schedule.iter_mut().for_each(|x| x.2 = -1);
+            }
+            v.push(s);
         }
     }
     v
@@ -667,6 +785,9 @@ pub fn check_main(cc: &CheckCfg) -> i32 {
         *by_clause.entry(c.clone()).or_insert(0) += 1;
     }
     if std::env::var("RSIM_DEBUG").is_ok() {
+        for (i, v) in &failing {
+            println!("FAIL run={} clause={} step={} detail={}", i, v.clause, v.step, v.detail);
+        }
         println!("DIED {:?}", died);
     }
     if !by_clause.is_empty() {
